@@ -2,3 +2,4 @@ import Properties.C19
 import Properties.C13
 import Properties.C20
 import Properties.C03
+import Properties.C05
